@@ -150,6 +150,12 @@ func (c *c42conn) Close() error {
 	return nil
 }
 
+// hang guard for a stream that is neither accepted, handled nor closed; after the first
+// hang the remaining enumeration is abandoned (the violation is already established)
+const c42hangGuard = 3 * time.Second
+
+var c42abort atomic.Bool
+
 type c42result struct {
 	cs    c42case
 	msg   string
@@ -202,8 +208,9 @@ func c42run(reg []c42slot, reverse bool, ins []c42in) (res []c42result, events *
 		}
 		select {
 		case ch <- d:
-		case <-time.After(20 * time.Second): // hang guard only
+		case <-time.After(c42hangGuard): // hang guard only
 			r.msg = "router-does-not-accept-the-stream"
+			c42abort.Store(true)
 			res = append(res, r)
 			continue
 		}
@@ -215,8 +222,11 @@ func c42run(reg []c42slot, reverse bool, ins []c42in) (res []c42result, events *
 			case ev.slot != want:
 				r.msg = "got=" + c42outcome(reg, ev.slot) + ":want=" + c42outcome(reg, want)
 			}
-		case <-time.After(20 * time.Second): // hang guard only
+		case <-time.After(c42hangGuard): // hang guard only
 			r.msg = "stream-neither-handled-nor-closed:want=" + c42outcome(reg, want)
+			c42abort.Store(true)
+			res = append(res, r)
+			return res, total
 		}
 		res = append(res, r)
 	}
@@ -263,6 +273,9 @@ func c42(c *report.Check) {
 		go func() {
 			defer wg.Done()
 			for j := range jobs {
+				if c42abort.Load() {
+					continue
+				}
 				var reg []c42slot
 				for i, s := range sp.slots {
 					if j.mask&(1<<i) != 0 {
@@ -331,9 +344,9 @@ func c42(c *report.Check) {
 	c.Set("distinct_nontrivial", dist.N())
 	c.Set("rule", fmt.Sprintf("every subset of %d registration slots (chord kind x {node-wide, virtual ids}, tunnel kind), registered in ascending and descending order on a fresh real StreamRouter, x every incoming stream of a %d-element alphabet (chord kind x id incl. an unregistered id and kind; tunnel kind); class = required outcome x incoming kind", len(sp.slots), len(sp.ins)))
 	c.Set("samples", dist.Samples)
-	c.Set("exhaustive", true)
+	c.Set("exhaustive", !c42abort.Load())
 	c.Assume("transports are stubs that only provide the AcceptStream channel; the delegate's connection is a stub whose Close is observed",
-		"a 20 s wait is used only as a hang guard for a stream that is neither handled nor closed (never reached on a passing run)",
+		"a 3 s wait is used only as a hang guard for a stream that is neither handled nor closed (never reached on a passing run)",
 		"streams are fed one at a time; concurrent registration while accepting is not explored")
 }
 
